@@ -39,6 +39,10 @@ func Parse(filename string, data []byte) (*File, error) {
 	if hdrLen > pageSize {
 		return corrupt()
 	}
+	if int(hdrLen) < np+4 {
+		// The header cannot be shorter than the prefix and the length word.
+		return corrupt()
+	}
 	meta := data[np+4 : hdrLen]
 	if i := bytes.IndexByte(meta, 0); i >= 0 {
 		meta = meta[:i]
